@@ -16,7 +16,58 @@ def mods():
     return ES, CELL, GridOperation, Grid, ErrorCalculator, RefinementObject, RefinementContainer
 
 
-def make_es(S, f, d, box, boundary, version, nrbe, auto, single_dim, pool):
+def _leaf_key(sa):
+    import hashlib
+    parts = sorted('%s:%s:%d' % (','.join('%g' % float(x) for x in o.start), ','.join('%g' % float(x) for x in o.end), int(o.coarseningValue))
+                   for o in sa.refinement.get_objects())
+    return hashlib.md5('|'.join(parts).encode()).hexdigest()[:10]
+
+
+def _area_key(o):
+    return '%s_%s' % ('x'.join('%g' % float(x) for x in o.start), 'x'.join('%g' % float(x) for x in o.end))
+
+
+class ESScript:
+    """P3 stand-ins installed on an extend-split instance (plain object, so that dill can save/restore the instance with them)."""
+
+    def __init__(self, sa, pool, keyed):
+        self.sa, self.pool, self.keyed = sa, pool, keyed
+        self.round, self.k, self.calls = -1, 0, 0
+
+    def calc_error(self, objectID):
+        sa = self.sa
+        S = lib.current_source()
+        r = len(sa.error_array)
+        if r != self.round:
+            self.round = r
+            self.k = 0
+        if self.k < self.pool:
+            # keyed: the decision is a function of the refinement state and the area (two runs that reach the same state decide alike)
+            name = ('err_%s_%s' % (_leaf_key(sa), _area_key(sa.refinement.get_object(objectID)))) if self.keyed else 'err%d_%d' % (r, self.k)
+            v = float(S.choice(name, 2))
+        else:
+            v = 0.0
+        self.k += 1
+        sa.refinement.get_object(objectID).set_error(v)
+
+    def benefits(self, area):
+        sa = self.sa
+        S = lib.current_source()
+        n = self.calls
+        self.calls += 1
+        ext = S.flag(('extend_%s_%s' % (_leaf_key(sa), _area_key(area))) if self.keyed else 'extend%d' % n)
+        area.parent_info.benefit_extend = 0.0 if ext else 1.0
+        area.parent_info.benefit_split = 1.0 if ext else 0.0
+        area.parent_info.extend_error_correction = 0.0
+
+    def twin_error(self, dd, area, norm):
+        S = lib.current_source()
+        v = S.fresh_real('twin')
+        S.assume(v >= 0)
+        return v
+
+
+def make_es(S, f, d, box, boundary, version, nrbe, auto, single_dim, pool, keyed=False):
     """Extend-split instance on the real classes with P3 stand-ins for the error / benefit estimates:
       calc_error(objectID)            -> error 1 or 0 chosen by the solver for the first `pool` new areas of a round, 0 otherwise
       compute_benefits_for_operations -> extend/split benefits chosen by the solver (automatic_extend_split)
@@ -29,37 +80,11 @@ def make_es(S, f, d, box, boundary, version, nrbe, auto, single_dim, pool):
     op = GO.Integration(f=f, grid=grid, dim=d)
     sa = ES.SpatiallyAdaptiveExtendScheme(a, b, number_of_refinements_before_extend=nrbe, version=version, automatic_extend_split=auto,
                                           split_single_dim=single_dim, operation=op)
-    state = {'round': -1, 'k': 0, 'calls': 0}
-
-    def calc_error(objectID):
-        r = len(sa.error_array)
-        if r != state['round']:
-            state['round'] = r
-            state['k'] = 0
-        if state['k'] < pool:
-            v = float(S.choice('err%d_%d' % (r, state['k']), 2))
-        else:
-            v = 0.0
-        state['k'] += 1
-        sa.refinement.get_object(objectID).set_error(v)
-
-    def benefits(area):
-        n = state['calls']
-        state['calls'] += 1
-        ext = S.flag('extend%d' % n)
-        area.parent_info.benefit_extend = 0.0 if ext else 1.0
-        area.parent_info.benefit_split = 1.0 if ext else 0.0
-        area.parent_info.extend_error_correction = 0.0
-
-    def twin_error(dd, area, norm):
-        v = S.fresh_real('twin')
-        S.assume(v >= 0)
-        return v
-
-    sa.calc_error = calc_error
-    sa.compute_benefits_for_operations = benefits
+    script = ESScript(sa, pool, keyed)
+    sa.calc_error = script.calc_error
+    sa.compute_benefits_for_operations = script.benefits
     if single_dim:
-        sa.get_twin_error = twin_error
+        sa.get_twin_error = script.twin_error
     return sa, op, grid, a, b
 
 
@@ -151,8 +176,8 @@ def local_combination_goals(S, sa, d, f, tag, out_len=1, interp=True):
         S.prove(ok, tag + ':public-call-reproduces-F-at-interior-area-grid-points')
 
 
-def run_es(S, d, lmin, lmax, box, boundary, version, nrbe, auto, single_dim, pool, cap, f, after_round=None, reevaluate=False):
-    sa, op, grid, a, b = make_es(S, f, d, box, boundary, version, nrbe, auto, single_dim, pool)
+def run_es(S, d, lmin, lmax, box, boundary, version, nrbe, auto, single_dim, pool, cap, f, after_round=None, reevaluate=False, keyed=False):
+    sa, op, grid, a, b = make_es(S, f, d, box, boundary, version, nrbe, auto, single_dim, pool, keyed=keyed)
     orig_refine = sa.refine
 
     def observed_refine():
